@@ -414,9 +414,10 @@ Definition step (gs : list graph) (es : list engine) (q : query) (c : cache) : t
   | QGiso i j a b d => (tbool (giso a b d (gnth gs i) (gnth gs j)), c)
   | QGiso0 i j => (tbool (giso0 (gnth gs i) (gnth gs j)), c)
   | QFgi i j ud fa a b d =>
+      (* [verdict; size of the mapping; was a matcher built (the fast invariant check did not reject)] *)
       (match fgi_map ud fa a b d (gnth gs i) (gnth gs j) with
-       | Some m => L [tbool true; tnat (length m)]
-       | None => L [tbool false; tnat 0]
+       | Some m => L [tbool true; tnat (length m); tbool (negb (fa && negb (fgi_fast (gnth gs i) (gnth gs j))))]
+       | None => L [tbool false; tnat 0; tbool (negb (fa && negb (fgi_fast (gnth gs i) (gnth gs j))))]
        end, c)
   | QEntry fn ch pa o => (L [tres (sub_entry fn o (gnth gs ch) (gnth gs pa)); tN (entry_trace fn o (gnth gs ch) (gnth gs pa))], c)
   | QCtor r => (tctor r, c)
